@@ -18,11 +18,12 @@ pub mod c15;
 pub mod c16;
 pub mod c17;
 pub mod c18;
+pub mod c19;
 pub mod c20;
 pub mod common;
 
 pub fn all() -> Vec<&'static dyn Property> {
-    vec![&c01::C01, &c02::C02, &c03::C03, &c04::C04, &c05::C05, &c04::C06, &c07::C07, &c08::C08, &c09::C09, &c10::C10, &c11::C11, &c12::C12, &c13::C13, &c14::C14, &c15::C15, &c16::C16, &c17::C17, &c18::C18, &c20::C20]
+    vec![&c01::C01, &c02::C02, &c03::C03, &c04::C04, &c05::C05, &c04::C06, &c07::C07, &c08::C08, &c09::C09, &c10::C10, &c11::C11, &c12::C12, &c13::C13, &c14::C14, &c15::C15, &c16::C16, &c17::C17, &c18::C18, &c19::C19, &c20::C20]
 }
 
 pub fn by_id(id: &str) -> Option<&'static dyn Property> {
@@ -33,6 +34,7 @@ pub fn by_id(id: &str) -> Option<&'static dyn Property> {
 pub fn signatures(id: &str) -> Vec<&'static str> {
     match id {
         "C09" => vec!["noNsElementNameUnderDefaultNs"],
+        "C19" => vec!["xhtmlHttpsLookalikeTreatedAsXhtml"],
         _ => vec![],
     }
 }
